@@ -761,6 +761,17 @@ def _never_killed(g, d, val, defs, passed):
     return True
 
 
+def _eq_lit(c):
+    """(variable, literal) of a pure test `v == k` / `k == v`"""
+    if c[0] == 'op' and c[1] == '==' and len(c) == 4:
+        a, b = c[2], c[3]
+        if a[0] == 'num' and b[0] == 'var':
+            return (b[1], a[1])
+        if b[0] == 'num' and a[0] == 'var':
+            return (a[1], b[1])
+    return None
+
+
 def normalise_cfg(g, outputs, notes, keep_vars=(), lang=None):
     """returns a new compacted CFG after (a) dropping io/nop, (b) dropping branches whose arms coincide,
        (c) propagating single dominating constant / copy assignments, (d) removing dead stores (liveness)."""
@@ -787,6 +798,38 @@ def normalise_cfg(g, outputs, notes, keep_vars=(), lang=None):
                 n.kind = 'nop'
                 n.succ = [n.succ[0] if n.stmt[1][1] != 0 else n.succ[1]]
                 changed = True
+            if n.kind == 'branch' and n.succ[0] != n.succ[1]:
+                # if (v == k1) goto X; if (v == k2) goto Y; goto X   ==   if (v == k2) goto Y; goto X   (k1 != k2)
+                e1 = _eq_lit(n.stmt[1])
+                m = g.nodes[n.succ[1]]
+                if e1 is not None and m.kind == 'branch' and m.id != n.id and m.succ[1] == n.succ[0] and m.succ[0] != m.succ[1]:
+                    e2 = _eq_lit(m.stmt[1])
+                    if e2 is not None and e1[0] == e2[0] and e1[1] != e2[1]:
+                        n.kind = 'nop'
+                        n.succ = [m.id]
+                        changed = True
+        if not changed:
+            # jump threading: b := e; if (b) ...  ==  b := e; if (e) ...   (e pure; the assignment is the branch's direct predecessor)
+            preds_ = g.preds()
+            for n in list(g.nodes):
+                if n.kind != 'branch':
+                    continue
+                c = n.stmt[1]
+                neg = False
+                if c[0] == 'op' and c[1] == 'not' and len(c) == 3 and c[2][0] == 'var':
+                    c, neg = c[2], True
+                if c[0] != 'var':
+                    continue
+                for pi in preds_[n.id]:
+                    pn = g.nodes[pi]
+                    if pn.kind == 'assign' and pn.stmt[1] == c and pn.succ == [n.id] and _pure(pn.stmt[2]) and \
+                            pn.stmt[2][0] == 'op' and pn.stmt[2][1] in ('<', '<=', '>', '>=', '==', '!=', 'and', 'or', 'not') and \
+                            c not in set(ir.subexprs(pn.stmt[2])):
+                        cond = pn.stmt[2] if not neg else ('op', 'not', pn.stmt[2])
+                        nb = g.new('branch', ('branch', cond, n.stmt[2] if len(n.stmt) > 2 else n.line), n.line)
+                        nb.succ = list(n.succ)
+                        pn.succ = [nb.id]
+                        changed = True
         if changed:
             continue
         # (c) constants and copies
